@@ -411,6 +411,7 @@ Lemma mxc_start_stage s id i k0 : mx_ok s -> MXC s (h_commits (handle_start_stag
 Proof.
   intros M. unfold handle_start_stage. destruct (get_stage s i) as [st0|] eqn:Hs; [|apply mxc_of_mxh; [exact M|constructor]].
   pose proof (M i st0 Hs) as H0.
+  destruct (parent_not_started s st0); [apply mxc_of_mxh; [exact M|mx_list I]|].
   assert (Forall (Forall (op_mx (w_claims s)))
             (h_commits (if start_stage_late (s_status st0) then ok []
                         else if start_stage_waits (evaluate_readiness (rstage_of st0) (upstream s st0) (s_bypass st0)) (upstream s st0) then ok []
